@@ -24,21 +24,31 @@ EXOTIC_DIM = [n for n in EXOTIC if n in ux.DIM]
 LITS = ['2', '3', '10', '0.5', '1e-3', '1.5', '.5', '2.', '1E3', '1e+2', '0.25', '100', '7', '1', '4.184', '.25e1', '1e-18', '6.02e23']
 EXPS = ['2', '2', '-1', '-2', '3', '0.5', '-0.5', '1', '0', '-3', '2.0', '1.5', '-.5', '1e0', '-1.0', '4']
 EXPS_INT = ['2', '2', '-1', '-2', '3', '1', '-3', '2.0', '-1.0']
+# near-threshold literals (class E): exponents 1e-13 ... 1e-3 away from a whole number / a half / zero, numeric factors that far
+# from one: a helper that "recognises" whole-number powers or unit factors with a tolerance changes the value by far more than
+# the 1e-12 of the oracles (m^2.000001 differs from m^2 by 2e-5 under angstrom working units)
+EXPS_NEAR = ['2.000001', '1.9999999', '0.9999999', '1.0000000001', '-1.000001', '-0.99999999', '3.00001', '2.0000000000001',
+             '0.4999999', '0.500001', '-2.0001', '1e-9', '-1e-7', '1.001', '0.999', '1e-4']
+LITS_NEAR = ['1.0000001', '0.99999999', '1.000000000001', '1.00001', '0.9999', '1.001', '0.999999999999', '1.0000000000001',
+             '2.0000001', '9.9999999', '1e-12', '0.50000001']
+XQ_NEAR = [('1000001', '1000000'), ('999999', '1000000'), ('2000001', '1000000'), ('-999999', '1000000'), ('1000000001', '2000000000')]
 WS = ['', '', '', '', ' ', ' ', '  ', '\t', '\n', '\r', ' \t', '\r\n', '\n  ', '\t\t']
 WS_SPACES = ['', '', '', ' ', ' ', '  ', '   ']
 
 S_NAME_ANY = st.one_of(st.sampled_from(COMMON), st.sampled_from(COMMON), st.sampled_from(COMMON),
                        st.sampled_from(ALL_DIM), st.sampled_from(EXOTIC))
 S_NAME_DIM = st.one_of(st.sampled_from(COMMON), st.sampled_from(COMMON), st.sampled_from(ALL_DIM), st.sampled_from(EXOTIC_DIM))
-S_LIT = st.sampled_from(LITS)
-S_EXPLIT = st.sampled_from(EXPS)
+# (one_of drops repeated strategy OBJECTS, so the weights need distinct objects)
+S_LIT = st.one_of([st.sampled_from(LITS) for _ in range(7)] + [st.sampled_from(LITS_NEAR)])
+S_EXPLIT = st.one_of([st.sampled_from(EXPS) for _ in range(6)] + [st.sampled_from(EXPS_NEAR)])
 S_EXPLIT_INT = st.sampled_from(EXPS_INT)
 S_NFACT = st.sampled_from([1, 1, 2, 2, 2, 3, 3, 3, 4, 5])
 S_NFACT_IN = st.sampled_from([1, 2, 2, 2, 3, 3])
 S_OPS = {n: st.text(alphabet='*/', min_size=n, max_size=n) for n in range(0, 6)}
 S_KIND = {True: st.sampled_from('uuuuuunngg'), False: st.sampled_from('uuuuun')}
 S_XKIND = st.sampled_from(['none', 'none', 'none', 'none', 'none', 'x', 'x', 'x', 'x', 'xp', 'xq'])
-S_XQ = st.sampled_from([('1', '2'), ('3', '2'), ('-1', '2'), ('1', '3'), ('2', '1'), ('-2', '4')])
+S_XQ = st.one_of([st.sampled_from([('1', '2'), ('3', '2'), ('-1', '2'), ('1', '3'), ('2', '1'), ('-2', '4')]) for _ in range(5)]
+                 + [st.sampled_from(XQ_NEAR)])
 S_WS = st.lists(st.sampled_from(WS), min_size=0, max_size=7)
 S_WS_SP = st.lists(st.sampled_from(WS_SPACES), min_size=0, max_size=5)
 S_BOOL = st.booleans()
@@ -259,3 +269,188 @@ def history_cases(draw):
              for _ in range(draw(S_HN))]
     extra = [{'ast': _expr(draw, 2, S_NAME_DIM), 'ws': draw(S_WS)} for _ in range(draw(S_HNEXTRA))]
     return {'start': start, 'mask': draw(S_HMASK), 'steps': steps, 'extra': extra, 'x': draw(S_HX)}
+
+
+# ----------------------------------------------------------------------------- forms: storage forms, ledger, caller-side edits
+#
+# One case is a short sequence of calls in one process.  Every value is handed over in a drawn STORAGE FORM (dtype x layout),
+# with drawn structure (one magnitude / one magnitude per element over 60 decades / near-threshold / exact halves), under a
+# unit expression that is random, exactly the working unit (factor one) or a hair away from it; after each call the caller may
+# overwrite what it handed in or what it got back, or hand the result on to the next call; working units may be reset between
+# calls.  The oracle keeps everything that was returned in a ledger and re-judges it bit for bit after every later call.
+
+FLOAT_DT = ['f8', 'f8', 'f8', 'f8', 'list', 'list', 'tuple', '>f8']
+INT_DT = ['i1', 'i1', 'i2', 'i4', 'i8', 'u1', 'u1', 'u2', 'u4', 'u8', 'u8', '>i2', '>i4', '>i8', '>u2', '>u8', '?', '?', 'ilist']
+NARROWF_DT = ['f4', 'f4', 'f2', 'f2', '>f4', '>f2']
+INT_RANGE = {'i1': (-2 ** 7, 2 ** 7 - 1), 'i2': (-2 ** 15, 2 ** 15 - 1), 'i4': (-2 ** 31, 2 ** 31 - 1), 'i8': (-2 ** 63, 2 ** 63 - 1),
+             'u1': (0, 2 ** 8 - 1), 'u2': (0, 2 ** 16 - 1), 'u4': (0, 2 ** 32 - 1), 'u8': (0, 2 ** 64 - 1), '?': (0, 1),
+             'ilist': (-2 ** 63, 2 ** 63 - 1)}
+LAYOUT_1D = ['c', 'c', 'ro', 'strided', 'neg']
+LAYOUT_2D = ['c', 'ro', 'strided', 'neg', 'F', 'F', 'T', 'T']
+LAYOUT_0D = ['scalar', 'scalar', 'a0']
+
+S_FAMILY = st.sampled_from(['float'] * 5 + ['int'] * 4)
+S_FAMILY_NF = st.sampled_from(['float'] * 2 + ['int'] * 1 + ['narrowf'] * 6)
+S_FLOAT_DT = st.sampled_from(FLOAT_DT)
+S_INT_DT = st.sampled_from(INT_DT)
+S_NARROWF_DT = st.sampled_from(NARROWF_DT)
+S_LAYOUT = {0: st.sampled_from(LAYOUT_0D), 1: st.sampled_from(LAYOUT_1D), 2: st.sampled_from(LAYOUT_2D)}
+S_FSHAPE = st.sampled_from([(), (), (1,), (2,), (3,), (4,), (5,), (5,), (1, 3), (2, 2), (2, 3), (3, 1), (3, 3)])
+S_STRUCT = st.sampled_from(['plain', 'plain', 'plain', 'decades', 'decades', 'decades', 'near', 'near', 'halves'])
+S_DECADE = st.integers(-30, 30)
+S_NEAR_BASE = st.sampled_from([1.0, 1.0, 2.0, 3.0, -1.0, 0.5, -0.5, 10.0, 1000.0, 0.25, 7.0])
+S_NEAR_DELTA = st.sampled_from([1e-12, -1e-12, 1e-10, 1e-9, -1e-9, 1e-7, 1e-6, -1e-6, 1e-4, 1e-3, -1e-3, 3e-16])
+S_NEAR_ZERO = st.sampled_from([1e-12, -1e-12, 1e-9, 1e-15, 1e-30, -1e-20, 1e-100, 0.0, -0.0])
+S_HALF = st.sampled_from([0.5, -0.5, 1.5, 0.25, 2.0, 4.0, -8.0, 1024.0, 0.0, -0.0, 1.0, -1.0, 3.0, 0.125, 2.0 ** 40, 2.0 ** -40, 1e15, -2.5])
+S_K8 = st.integers(-2000, 2000)
+S_E4 = st.integers(-20, 20)
+S_E2 = st.integers(-3, 4)
+S_LIMIT = st.integers(0, 9)
+S_INTS = {dt: st.integers(lo, hi) for dt, (lo, hi) in INT_RANGE.items()}
+S_SMALLINT = st.integers(-100, 100)
+
+
+def _int_elem(draw, dt):
+    """an integer from the whole range of the dtype: 40 % within 2 of a limit, 30 % anywhere, 30 % small"""
+    dt = dt.lstrip('>')
+    lo, hi = INT_RANGE[dt]
+    k = draw(S_LIMIT)
+    if k < 4:
+        return [lo, hi, lo + 1, hi - 1][k] if hi - lo > 2 else [lo, hi][k % 2]
+    if k < 7:
+        return draw(S_INTS[dt])
+    return min(hi, max(lo, draw(S_SMALLINT)))
+
+
+def _float_elems(draw, n, struct):
+    if struct == 'plain':
+        mag = draw(S_MAG)
+        return [draw(S_F) * mag for _ in range(n)]
+    if struct == 'decades':
+        # every element with a magnitude of its own, 10^-30 ... 10^30 (x up to 1000): one array over up to 66 decades
+        return [(draw(S_F) or 1.0) * 10.0 ** draw(S_DECADE) for _ in range(n)]
+    if struct == 'near':
+        out = []
+        for _ in range(n):
+            out.append(draw(S_NEAR_BASE) * (1.0 + draw(S_NEAR_DELTA)) if draw(S_BOOL) or draw(S_BOOL) else draw(S_NEAR_ZERO))
+        return out
+    return [draw(S_HALF) for _ in range(n)]
+
+
+def _nest(flat, shape):
+    if len(shape) == 0:
+        return flat[0]
+    if len(shape) == 1:
+        return list(flat)
+    m = shape[1]
+    return [list(flat[i * m:(i + 1) * m]) for i in range(shape[0])]
+
+
+def _form_value(draw, narrowf):
+    fam = draw(S_FAMILY_NF if narrowf else S_FAMILY)
+    shape = draw(S_FSHAPE)
+    n = 1
+    for s in shape:
+        n *= s
+    if fam == 'float':
+        dt = draw(S_FLOAT_DT)
+        struct = draw(S_STRUCT)
+        flat = _float_elems(draw, n, struct)
+    elif fam == 'int':
+        dt = draw(S_INT_DT)
+        struct = 'int'
+        flat = [_int_elem(draw, dt) for _ in range(n)]
+        if dt == '?':
+            flat = [bool(v) for v in flat]
+    else:
+        dt = draw(S_NARROWF_DT)
+        struct = 'narrowf'
+        # exactly representable in the narrow type: k/8 * 2^e with |k| <= 2000 (11 bits)
+        se = S_E2 if dt.endswith('f2') else S_E4
+        flat = [draw(S_K8) / 8.0 * 2.0 ** draw(se) for _ in range(n)]
+    if dt in ('list', 'tuple', 'ilist'):
+        layout = 'py'
+        if dt == 'ilist':
+            dt = 'list'
+    else:
+        layout = draw(S_LAYOUT[len(shape)])
+    return {'v': _nest(flat, shape), 'dt': dt, 'layout': layout, 'struct': struct}
+
+
+S_WEXP = st.sampled_from([None, None, None, '2', '-1', '3', '-2', '0.5', '1'])
+S_WN = st.sampled_from([1, 1, 2, 2, 3])
+SI_NAMES = ['m', 'kg', 's', 'C', 'J', 'N', 'Pa', 'V', 'W', 'A', 'Hz']
+S_LIT_NEAR1 = st.sampled_from([l for l in LITS_NEAR if abs(float(l) - 1.0) < 2e-3])
+S_UKIND = st.sampled_from(['random', 'random', 'random', 'working', 'working', 'working', 'near_working', 'near_working', 'none', 'scaled'])
+
+
+def _working_expr(draw, cfg, near):
+    """a monomial in the units that ARE the working units of cfg (value one to rounding); for a random seed, where no name is
+    one, a quotient x/x; near: times a literal 1e-13 ... 1e-3 away from one"""
+    if cfg['kind'] == 'named':
+        names = [cfg['units'][q] for q in QUANT if q in cfg['units']]
+    elif cfg['kind'] == 'SI':
+        names = SI_NAMES
+    else:
+        names = None
+    if names is None:
+        nm = draw(S_NAME_DIM)
+        x = draw(S_WEXP)
+        X = None if x is None else ['x', x]
+        fs, ops = [['u', nm, X], ['u', nm, X]], '/'
+    else:
+        k = draw(S_WN)
+        fs = []
+        for _ in range(k):
+            x = draw(S_WEXP)
+            fs.append(['u', names[draw(S_IDX) % len(names)], None if x is None else ['x', x]])
+        ops = draw(S_OPS[k - 1])
+    if near:
+        fs = [['n', draw(S_LIT_NEAR1), None]] + fs
+        ops = '*' + ops
+    return ['E', fs, ops]
+
+
+def _form_unit(draw, cfg):
+    k = draw(S_UKIND)
+    if k in ('none', 'scaled'):
+        return {'kind': k}
+    if k == 'random':
+        return {'kind': 'expr', 'ast': _expr(draw, 1, S_NAME_ANY), 'ws': draw(S_WS)}
+    return {'kind': 'expr', 'ast': _working_expr(draw, cfg, k == 'near_working'), 'ws': draw(S_WS_SP)}
+
+
+S_FOP = st.sampled_from(['set'] * 5 + ['get'] * 3 + ['lit', 'style', 'style', 'reset', 'reset'])
+S_FPOST = st.sampled_from(['none', 'none', 'mut_out', 'mut_out', 'mut_in', 'mut_in', 'mut_both'])
+S_FN = st.integers(2, 6)
+S_STYLE = st.sampled_from(['lj', 'real', 'metal', 'si', 'cgs', 'electron', 'micro', 'nano'])
+S_EDIT = st.sampled_from(['none', 'none', 'set', 'set', 'del', 'clear', 'add'])
+S_NARROWF_CASE = st.sampled_from([False] * 5 + [True])
+S_PREV = st.sampled_from([False, False, False, True])
+S_WHICH = st.sampled_from([0, 0, 1])
+
+
+@st.composite
+def forms_cases(draw):
+    cfg = draw(S_CFG)
+    narrowf = draw(S_NARROWF_CASE)
+    steps = []
+    cur = cfg
+    styles = [draw(S_STYLE), draw(S_STYLE)]          # two styles per case, so that a style is asked for again after other calls
+    for _ in range(draw(S_FN)):
+        op = draw(S_FOP)
+        if op == 'reset':
+            cur = draw(S_CFG)
+            steps.append({'op': 'reset', 'cfg': cur})
+        elif op == 'style':
+            steps.append({'op': 'style', 'style': styles[draw(S_WHICH)], 'edit': draw(S_EDIT), 'k': draw(S_IDX)})
+        elif op == 'lit':
+            n = draw(st.integers(0, 4))
+            struct = draw(S_STRUCT)
+            flat = _float_elems(draw, max(n, 1), struct)
+            u = _form_unit(draw, cur)
+            steps.append({'op': 'lit', 'v': flat[0] if n == 0 else flat, 'struct': struct, 'unit': u, 'sep': draw(st.sampled_from([' ', ' ', '  ']))})
+        else:
+            steps.append({'op': op, 'value': _form_value(draw, narrowf), 'unit': _form_unit(draw, cur), 'post': draw(S_FPOST),
+                          'prev': draw(S_PREV), 'fill': draw(S_F)})
+    return {'cfg': cfg, 'narrowf': narrowf, 'steps': steps}
